@@ -1,0 +1,18 @@
+//go:build verif
+
+package generate
+
+// Hooks for the verification harness under /verif (build tag `verif`); not
+// compiled into normal builds.  They only expose existing state and functions.
+
+// VerifSetBaseDir sets the directory that diagnostics are made relative to,
+// as ValidateAndFillDefaults does, without running `go list`.
+func VerifSetBaseDir(c *Config, dir string) { c.baseDir = dir }
+
+// VerifExpandFilenames exposes expandFilenames.
+func VerifExpandFilenames(globs []string) ([]string, error) { return expandFilenames(globs) }
+
+// VerifReadConfigGenerateAndWrite exposes readConfigGenerateAndWrite (what Main runs).
+func VerifReadConfigGenerateAndWrite(configFilename string) error {
+	return readConfigGenerateAndWrite(configFilename)
+}
